@@ -723,6 +723,13 @@ func (c *Client) processPubrel(id packet.ID) error {
 		}
 	}
 
+	// remove packet from store before acknowledging it, otherwise a failed
+	// transmission would deliver the message again on a retransmitted Pubrel
+	err = c.Session.DeletePacket(session.Incoming, id)
+	if err != nil {
+		return c.die(err, true)
+	}
+
 	// prepare pubcomp packet
 	pubcomp := packet.NewPubcomp()
 	pubcomp.ID = publish.ID
@@ -731,12 +738,6 @@ func (c *Client) processPubrel(id packet.ID) error {
 	err = c.send(pubcomp, true)
 	if err != nil {
 		return c.die(err, false)
-	}
-
-	// remove packet from store
-	err = c.Session.DeletePacket(session.Incoming, id)
-	if err != nil {
-		return c.die(err, true)
 	}
 
 	return nil
